@@ -1,7 +1,8 @@
 //! C03 — event signatures survive redaction; required signers and hash status are enforced.
 //!
 //! P-explorer: room versions 1..=11 (through `RoomVersionId::rules()`) x 15 event families x
-//! signer sets x every single-key mutation, `verify_event` compared with a first-principles
+//! signer sets x 4 shapes (full, without `unsigned`, reduced to the keys redaction keeps, the latter plus
+//! `unsigned`) x every single-key mutation, `verify_event` compared with a first-principles
 //! reference: spec redaction table (engine::spec::redaction) + spec "who must sign" rule +
 //! the harness' own canonical JSON encoder.
 
@@ -455,7 +456,8 @@ fn main() {
                 // a signing failure: re-run the signing of that (version, family)
                 let v = j["v"].as_u64().unwrap_or(1) as u8;
                 let fams = events::families();
-                let Some(fam) = fams.iter().find(|f| j["family"] == f.name) else { return vec![] };
+                let base = j["family"].as_str().unwrap_or("").split('~').next().unwrap_or("").to_owned();
+                let Some(fam) = fams.iter().find(|f| f.name == base) else { return vec![] };
                 let mut out = vec![];
                 for mask in 0..32 {
                     if let Err(e) = sign(v, &fam.event, mask, &mut Tally::new()) {
@@ -474,7 +476,8 @@ fn main() {
         "product: room versions 1..=11 (RoomVersionId::rules()) x {} event families (7 member variants incl. third-party invite and \
          restricted join, create, join_rules+allow, power_levels, aliases, history_visibility, redaction, message, unknown type; each \
          with every content key the spec names for any version + unknown content key + unknown top-level key + unsigned + redacts + \
-         origin/membership/prev_state) x all 32 subsets of 5 signing keys (sender server with two keys, event-id server, authorising \
+         origin/membership/prev_state; each family in 4 shapes: full, without unsigned, reduced to what redaction keeps under that \
+         version (an event redaction leaves untouched), the latter plus unsigned) x all 32 subsets of 5 signing keys (sender server with two keys, event-id server, authorising \
          server, unrelated server) signed with the real hash_and_sign_event; for each: verify_event as signed, on the redacted copy \
          (reference redaction and ruma's redact); for 3 signer sets (all / exactly required / required + unrelated): every single-key \
          mutation (change, delete, kind change, added key at top level, content, unsigned, hashes, third_party_invite, \
@@ -489,11 +492,33 @@ fn main() {
     report.require_outcomes("verify_event", 3);
     report.require_outcomes("reference", 3);
 
-    let shards: Vec<(u8, usize)> = (1..=11u8).flat_map(|v| (0..fams.len()).map(move |f| (v, f))).collect();
+    // shapes of each family: the full event (every key present); the same without `unsigned`; the
+    // event reduced to what redaction keeps under that room version (an event redaction leaves
+    // untouched), without and with an `unsigned` object
+    let mut shards: Vec<(u8, events::Family)> = vec![];
+    for v in 1..=11u8 {
+        for fam in &fams {
+            shards.push((v, fam.clone()));
+            let named = |suffix: &str, event: Map<String, Value>| events::Family {
+                name: Box::leak(format!("{}~{suffix}", fam.name).into_boxed_str()),
+                event,
+            };
+            let mut e = fam.event.clone();
+            e.remove("unsigned");
+            shards.push((v, named("no-unsigned", e)));
+            if let RefRedact::Must(mut m) = spec::redact_event(v, &fam.event) {
+                m.remove("unsigned");
+                shards.push((v, named("kept-only", m.clone())));
+                m.insert("unsigned".into(), json!({"age": 5}));
+                shards.push((v, named("kept-only+unsigned", m)));
+            }
+        }
+    }
+    report.set("shapes", json!(["full", "no-unsigned", "kept-only", "kept-only+unsigned"]));
     par_shards(&report, shards.len(), |i, t| {
-        let (v, fi) = shards[i];
+        let (v, fam) = (shards[i].0, &shards[i].1);
         let mut n = 0usize;
-        cases_for(v, &fams[fi], t, &report, &mut |case, t2| {
+        cases_for(v, fam, t, &report, &mut |case, t2| {
             t2.states += 1;
             n += 1;
             let (exp, viol) = run_verify(&case, t2);
